@@ -6,8 +6,11 @@ sys.path.insert(0, V)
 import registry
 
 props = [json.loads(l) for l in open(os.path.join(V, "properties.jsonl"))]
+enabled = set(open(os.path.join(V, 'enabled.txt')).read().split())
 checks = []
 for pid in sorted(registry.CHECKS):
+    if pid not in enabled:
+        continue
     c = registry.CHECKS[pid]
     checks.append(dict(
         property_id=pid,
@@ -21,7 +24,7 @@ for pid in sorted(registry.CHECKS):
         technique=c["technique"]))
 na = []
 for p in props:
-    if p["id"] not in registry.CHECKS:
+    if p["id"] not in registry.CHECKS or p["id"] not in enabled:
         na.append(dict(property_id=p["id"], reason=registry.NOT_CLAIMED.get(p["id"], "check not built yet (work in progress); no claim is made")))
 m = dict(
     version=1,
@@ -29,7 +32,7 @@ m = dict(
     hooks=dict(guard="BLUETOE_VERIF", enable="none needed: harnesses interpose at include time (macro mapping of uint8_t / std::atomic_int inside the harness TU) and build bluetoe's headers from /repo's working tree on every run",
                baseline_off_cmd="cmake --build /repo/_build -- -k 0 ; ctest --test-dir /repo/_build -j8 --timeout 900",
                source_commits=[], add_only=True),
-    engines=[dict(name="mc", path="/verif/mc/mc.hpp", serves_properties=sorted(registry.CHECKS),
+    engines=[dict(name="mc", path="/verif/mc/mc.hpp", serves_properties=sorted(enabled & set(registry.CHECKS)),
                   kind_free_text="explicit-state BFS / exhaustive product enumeration / interleaving exploration directly over the real bluetoe objects; driver bin/check")],
     checks=checks,
     notes="See DESIGN.md. Every check rebuilds its harness against /repo's working tree. known_findings.json lists recorded and fixed defects.",
